@@ -9,6 +9,10 @@
     (p) IS NOT TRUE -- fix f4599fa) and checks ImplSafe and the property PropExact.  Negative
     control: Neg_small.cfg (Keep = "not_p", the behaviour before the fix) must violate PropExact,
     otherwise the run is an InfraError (vacuous property).
+(M2) Overlap.tla: two overlapping confirmed deletes (double submit) as processes with steps scan / rewrite-file,
+    every interleaving, invariants UnselectedStay / SelectedGone / CountsAddUp; negative control Recount = FALSE.
+    The family A.scan ; B completely ; A.rewrite* is replayed: request A is held at the handler's own log line
+    between scan and rewrite (a blocking log sink, no timing) while request B runs.
 (G) the same run emits every (predicate, layout) case with the truth vector, the property's expected
     outcome and the model's prediction.  Cases are de-duplicated by (layout, truth vector) and the
     Go driver replays them into the REAL handler (internal/api/delete.go via fiber, dry run then
@@ -41,6 +45,8 @@ def run(ctx):
     try:
         gen = ctx.tlc("rowdelete", "RowDelete", "Gen_%s.cfg" % size, coverage=ctx.quick(), timeout=2400, workers=6)
         neg = ctx.tlc("rowdelete", "RowDelete", "Neg_small.cfg", timeout=1200, workers=6, allow_violation=True)
+        ovl = ctx.tlc("rowdelete", "Overlap", "Overlap_small.cfg", coverage=ctx.quick(), timeout=1200, workers=6)
+        ovn = ctx.tlc("rowdelete", "Overlap", "OverlapNeg_small.cfg", timeout=1200, workers=6, allow_violation=True)
     finally:
         th.join()
     if "err" in built:
@@ -51,7 +57,7 @@ def run(ctx):
         raise InfraError("generator emitted %d dataset lines and %d cases" % (len(ds), len(cases)))
     ds = ds[0]
     if ctx.quick():
-        for a in ("RejectUnconfirmed", "DryRunPlain", "DryRun", "FindAffected", "RewriteCopy", "RewriteRemove"):
+        for a in ("RejectUnconfirmed", "DryRunPlain", "DryRun", "FindAffectedBatch", "FindAffectedFallback", "RewriteCopy", "RewriteRemove"):
             if gen.coverage.get(a, (0, 0))[0] == 0:
                 raise InfraError("vacuous model: action %s never fired" % a)
     if neg.violated != "PropExact":
@@ -65,6 +71,18 @@ def run(ctx):
                                  "actions_fired": {k: v[0] for k, v in gen.coverage.items()}})
     ctx.note("tlc_negative_control", {"cfg": "Neg_small.cfg", "variant": "Keep=not_p (behaviour before fix f4599fa)", "violated": neg.violated,
                                       "states_until_counterexample": neg.distinct})
+    if ovn.violated != "OverlapSafe":
+        raise InfraError("negative control: Overlap.tla with Recount = FALSE does not violate OverlapSafe")
+    overlaps = [t for t in ovl.traces if t.get("kind") == "overlap"]
+    if ctx.quick():
+        for a in ("ScanA", "ScanB", "RwA", "RwB"):
+            if ovl.coverage.get(a, (0, 0))[0] == 0:
+                raise InfraError("vacuous model: Overlap action %s never fired" % a)
+    if not overlaps:
+        raise InfraError("Overlap.tla emitted no behaviour of the replayable family")
+    ctx.note("tlc_overlap", {"cfg": "Overlap_small.cfg", "distinct": ovl.distinct, "generated": ovl.generated, "depth": ovl.depth,
+                             "invariants": ["UnselectedStay", "SelectedGone", "CountsAddUp"], "replayable_behaviours": len(overlaps),
+                             "negative_control": {"cfg": "OverlapNeg_small.cfg", "violated": ovn.violated}})
     # vacuity of the generated set: every file class (which of T/F/N occur in a file) must be present
     classes = set()
     for c in cases:
@@ -97,7 +115,10 @@ def run(ctx):
         raise InfraError("no full-table predicate (1=1 / TRUE) among the replayed cases")
     ctx.log("TLC emitted %d cases, %d distinct (layout, truth vector) keys, replaying %d" % (len(cases), len(groups), len(chosen)))
     sp = ctx.path("cases.json")
-    json.dump({"dataset": ds, "cases": chosen}, open(sp, "w"))
+    overlaps.sort(key=lambda t: json.dumps(t, sort_keys=True))
+    if ctx.quick() and len(overlaps) > 150:
+        overlaps = rnd.sample(overlaps, 150)
+    json.dump({"dataset": ds, "cases": chosen, "overlaps": overlaps}, open(sp, "w"))
     rp = ctx.path("result.json")
     work = ctx.path("work")
     import os
@@ -119,6 +140,11 @@ def run(ctx):
     ctx.traces_validated(r["cases"])
     ctx.note("delete_requests", r["requests"])
     ctx.note("requests_by_flags_and_outcome", r["requests_by_flags_and_outcome"])
+    ctx.note("cases_with_unreadable_file_fallback_path", r["junk_cases"])
+    ctx.note("overlapping_deletes", {"behaviours_replayed": r["overlap_behaviours"], "gate_reached": r["overlap_gate_reached"],
+                                     "gate_missed": r["overlap_gate_missed"], "with_failed_files": r["overlap_requests_reporting_failed_files"]})
+    if r["overlap_behaviours"] and r["overlap_gate_reached"] == 0:
+        ctx.missing_gates = list(getattr(ctx, "missing_gates", [])) + ["delete.handleDelete:log 'Rewriting files to remove rows'"]
     ctx.note("full_table_predicate_cases", r["full_table_predicate_cases"])
     ctx.note("constant_predicate_cases", r["constant_predicate_cases"])
     ctx.note("disagreements_checked", r["duckdb_second_opinion_rows"])     # distinct rows evaluated by DuckDB as second opinion
